@@ -101,8 +101,8 @@ func rangeString(l label) string {
 }
 
 // signature attributes a failing case to the branch of the implementation model that handled it.
-func signature(l label) string {
-	if l.OrWhole && l.Branch != "whole" {
+func signature(l label, got, text string) string {
+	if l.OrWhole && l.Branch != "whole" && got == text {
 		// the only way the original `||` rule and the repaired `&&` rule differ
 		return "IsWholeDocument.EndCharEqualsLastLineLen"
 	}
@@ -158,7 +158,7 @@ func edges(args []string) {
 		}
 		if got != want {
 			fails++
-			vhlib.Fail(signature(e.Lbl), "server copy differs from the editor's buffer after one content change",
+			vhlib.Fail(signature(e.Lbl, got, text), "server copy differs from the editor's buffer after one content change",
 				caseReport{From: from, Range: rangeString(e.Lbl), Text: text, Want: want, Got: got, Branch: e.Lbl.Branch})
 		} else if abstract(got) != strings.Join(e.Impl, "") {
 			drift++
@@ -234,7 +234,7 @@ func edges(args []string) {
 			if got != want || gotDC != want {
 				walkFails++
 				fails++
-				vhlib.Fail(signature(e.Lbl), "server copy differs from the editor's buffer after a sequence of content changes",
+				vhlib.Fail(signature(e.Lbl, got, text), "server copy differs from the editor's buffer after a sequence of content changes",
 					caseReport{From: concrete, Range: rangeString(e.Lbl), Text: text, Want: want, Got: got + " / batched: " + gotDC, Branch: e.Lbl.Branch, Path: path})
 				break
 			}
@@ -289,7 +289,7 @@ func hist(path string) {
 			}
 			if got != want {
 				fails++
-				vhlib.Fail(signature(st.Lbl), "server copy differs from the editor's buffer in a simulated long behaviour",
+				vhlib.Fail(signature(st.Lbl, got, text), "server copy differs from the editor's buffer in a simulated long behaviour",
 					caseReport{From: concrete, Range: rangeString(st.Lbl), Text: text, Want: want, Got: got, Branch: st.Lbl.Branch, Path: pth})
 				break
 			}
